@@ -12,113 +12,131 @@ Definition q_trunc (q : Q) : Z := Z.quot (Qnum q) (Zpos (Qden q)).
 
 Definition PF : nat := 200%nat.   (* fuel for nested publication and calculation *)
 
+(* The message-discipline layer (containers, setters, load/unload) never reads
+   what the services derive; it only emits publications, each with the base
+   world at that moment, and cache clears. The derived state replays them. *)
+Inductive event :=
+| EvPublish (w : world) (f : nat) (msgs : list msg)
+| EvClear (i : nat).                 (* attrs._clear() in _unload *)
+
+Definition st := (world * list event)%type.
+Definition emit (s : st) (f : nat) (msgs : list msg) : st :=
+  match msgs with
+  | [] => s
+  | _ => (fst s, snd s ++ [EvPublish (fst s) f msgs])
+  end.
+Definition emit_always (s : st) (f : nat) (msgs : list msg) : st :=
+  (fst s, snd s ++ [EvPublish (fst s) f msgs]).
+Definition lift (s : st) (g : world -> world) : st := (g (fst s), snd s).
+Definition with_msgs (s : st) (f : nat) (g : world -> world * list msg) : st :=
+  let (w, m) := g (fst s) in emit_always (w, snd s) f m.
+
 (* ------------------------------------------------------------------ *)
 (* _load / _unload / _handle_item_addition / _handle_item_removal       *)
 
-Fixpoint load (fuel : nat) (w : world) (i : nat) {struct fuel} : world :=
+Fixpoint load (fuel : nat) (s : st) (i : nat) {struct fuel} : st :=
   match fuel with
-  | O => fail w EOutOfFuel
+  | O => lift s (fun w => fail w EOutOfFuel)
   | S fuel =>
+    let w := fst s in
     match get_item w i, item_fit w i with
     | Some it, Some f =>
       match fit_source_id w f with
-      | None => w
+      | None => s
       | Some src =>
         match (match get_src w src with Some u => get_type u (i_tid it) | None => None end) with
-        | None => w                                   (* TypeFetchError *)
+        | None => s                                   (* TypeFetchError *)
         | Some t =>
-          let w := put_item w i (it_set_loaded it (Some src)) in
-          let (w, msgs) := item_loaded_msgs w i in
-          let w := publish PF w f msgs in
+          let s := lift s (fun w => put_item w i (it_set_loaded it (Some src))) in
+          let s := with_msgs s f (fun w => item_loaded_msgs w i) in
           (* autocharges *)
-          match get_item w i with
-          | None => fail w EKeyAbsent
+          match get_item (fst s) i with
+          | None => lift s (fun w => fail w EKeyAbsent)
           | Some it =>
             fold_left
-              (fun w (ee : Z * effect) =>
+              (fun s (ee : Z * effect) =>
                  match e_autocharge_attr (snd ee) with
-                 | None => w
+                 | None => s
                  | Some aa =>
                    match al_get zeqb (t_attrs t) aa with
-                   | None => w
+                   | None => s
                    | Some q =>
-                     let a := w_next w in
-                     let w := set_next w (S a) in
-                     let w := put_item w a (new_item CAutocharge (q_trunc q) State_offline 0) in
-                     let w := upd_item w i (fun it => it_set_autos it (al_set zeqb (i_autos it) (fst ee) a)) in
-                     add_item fuel w a (PAuto i)
+                     let a := w_next (fst s) in
+                     let s := lift s (fun w =>
+                                let w := set_next w (S a) in
+                                let w := put_item w a (new_item CAutocharge (q_trunc q) State_offline 0) in
+                                upd_item w i (fun it => it_set_autos it (al_set zeqb (i_autos it) (fst ee) a))) in
+                     add_item fuel s a (PAuto i)
                    end
-                 end) (item_effects w it) w
+                 end) (item_effects (fst s) it) s
           end
         end
       end
-    | Some _, None => w
-    | None, _ => fail w EKeyAbsent
+    | Some _, None => s
+    | None, _ => lift s (fun w => fail w EKeyAbsent)
     end
   end
 
 (* _handle_item_addition after the already-assigned test *)
-with add_item (fuel : nat) (w : world) (i : nat) (p : place) {struct fuel} : world :=
+with add_item (fuel : nat) (s : st) (i : nat) (p : place) {struct fuel} : st :=
   match fuel with
-  | O => fail w EOutOfFuel
+  | O => lift s (fun w => fail w EOutOfFuel)
   | S fuel =>
-    let w := upd_item w i (fun it => it_set_cont it (Some p)) in
-    match item_fit w i with
-    | None => w
+    let s := lift s (fun w => upd_item w i (fun it => it_set_cont it (Some p))) in
+    match item_fit (fst s) i with
+    | None => s
     | Some f =>
-      let one w sub :=
-          let (w, msgs) := item_added_msgs w sub in
-          let w := publish PF w f msgs in
-          load fuel w sub in
-      let w := one w i in
-      match get_item w i with
-      | Some it => fold_left one (child_items it true) w
-      | None => fail w EKeyAbsent
+      let one s sub :=
+          let s := with_msgs s f (fun w => item_added_msgs w sub) in
+          load fuel s sub in
+      let s := one s i in
+      match get_item (fst s) i with
+      | Some it => fold_left one (child_items it true) s
+      | None => lift s (fun w => fail w EKeyAbsent)
       end
     end
   end.
 
-Fixpoint unload (fuel : nat) (w : world) (i : nat) {struct fuel} : world :=
+Fixpoint unload (fuel : nat) (s : st) (i : nat) {struct fuel} : st :=
   match fuel with
-  | O => fail w EOutOfFuel
+  | O => lift s (fun w => fail w EOutOfFuel)
   | S fuel =>
-    match get_item w i with
-    | None => fail w EKeyAbsent
+    match get_item (fst s) i with
+    | None => lift s (fun w => fail w EKeyAbsent)
     | Some it =>
-      let w := match item_fit w i, i_loaded it with
-               | Some f, Some _ =>
-                 let (w, msgs) := item_unloaded_msgs w i in publish PF w f msgs
-               | _, _ => w
+      let s := match item_fit (fst s) i, i_loaded it with
+               | Some f, Some _ => with_msgs s f (fun w => item_unloaded_msgs w i)
+               | _, _ => s
                end in
-      let w := upd_item w i (fun it => it_set_capmap (it_set_cache it []) []) in
-      let w := match get_item w i with
+      let s := (fst s, snd s ++ [EvClear i]) in
+      let s := match get_item (fst s) i with
                | Some it =>
-                 let w := fold_left (fun w (ea : Z * nat) => remove_item fuel w (snd ea)) (i_autos it) w in
-                 upd_item w i (fun it => it_set_autos it [])
-               | None => fail w EKeyAbsent
+                 let s := fold_left (fun s (ea : Z * nat) => remove_item fuel s (snd ea)) (i_autos it) s in
+                 lift s (fun w => upd_item w i (fun it => it_set_autos it []))
+               | None => lift s (fun w => fail w EKeyAbsent)
                end in
-      upd_item w i (fun it => it_set_loaded it None)
+      lift s (fun w => upd_item w i (fun it => it_set_loaded it None))
     end
   end
 
 (* _handle_item_removal *)
-with remove_item (fuel : nat) (w : world) (i : nat) {struct fuel} : world :=
+with remove_item (fuel : nat) (s : st) (i : nat) {struct fuel} : st :=
   match fuel with
-  | O => fail w EOutOfFuel
+  | O => lift s (fun w => fail w EOutOfFuel)
   | S fuel =>
-    let fit := item_fit w i in
-    let one w sub :=
-        let w := unload fuel w sub in
+    let fit := item_fit (fst s) i in
+    let one s sub :=
+        let s := unload fuel s sub in
         match fit with
-        | Some f => let (w, msgs) := item_removed_msgs w sub in publish PF w f msgs
-        | None => w
+        | Some f => with_msgs s f (fun w => item_removed_msgs w sub)
+        | None => s
         end in
-    let w := one w i in
-    let w := match get_item w i with
-             | Some it => fold_left one (child_items it true) w
-             | None => fail w EKeyAbsent
+    let s := one s i in
+    let s := match get_item (fst s) i with
+             | Some it => fold_left one (child_items it true) s
+             | None => lift s (fun w => fail w EKeyAbsent)
              end in
-    upd_item w i (fun it => it_set_cont it None)
+    lift s (fun w => upd_item w i (fun it => it_set_cont it None))
   end.
 
 Definition has_container (w : world) (i : nat) : bool :=
@@ -150,7 +168,7 @@ Definition cls_of (w : world) (i : nat) : option icls :=
   match get_item w i with Some it => Some (i_cls it) | None => None end.
 
 (* ------------------------------------------------------------------ *)
-(* Python list indexing                                                *)
+(* Python list indexing and the pure list part of ItemList              *)
 
 Definition norm_index (len : nat) (idx : Z) : option nat :=
   let i := if idx <? 0 then idx + Z.of_nat len else idx in
@@ -165,7 +183,17 @@ Fixpoint cleanup_rev (l : rack) : rack :=   (* on the reversed list *)
 Definition cleanup (l : rack) : rack := rev (cleanup_rev (rev l)).
 Definition allocate (l : rack) (idx : Z) : rack :=     (* _allocate(index) *)
   l ++ repeat None (Z.to_nat (Z.max (idx - Z.of_nat (length l) + 1) 0)).
-Definition onat_is (a : option nat) (b : option nat) : bool := onat_eqb a b.
+Definition is_hole (x : option nat) : bool := match x with None => true | Some _ => false end.
+
+(* list after list.insert(index, value) preceded by _allocate(index - 1) *)
+Definition ins_list (l : rack) (idx : Z) (v : option nat) : rack :=
+  let l1 := allocate l (idx - 1) in list_ins l1 (insert_pos (length l1) idx) v.
+(* where equip puts the item: first hole, else the end *)
+Definition equip_list (l : rack) (i : nat) : rack * nat :=
+  match find_index is_hole l with
+  | Some n => (list_set l n (Some i), n)
+  | None => (l ++ [Some i], length l)
+  end.
 
 Definition get_rack (w : world) (f : nat) (k : rackk) : rack :=
   match get_fit w f with Some ft => fit_rack ft k | None => [] end.
@@ -183,128 +211,116 @@ Inductive res :=
 | REffects (l : list (Z * bool))
 | RExn (x : exn).
 
+Definition set_rack (s : st) (f : nat) (k : rackk) (l : rack) : st := lift s (fun w => put_rack w f k l).
+
 (* ItemList methods *)
-Definition rack_append (w : world) (f : nat) (k : rackk) (i : nat) : world * res :=
+Definition rack_append (s : st) (f : nat) (k : rackk) (i : nat) : st * res :=
+  let w := fst s in
   match cls_of w i with
-  | None => (w, RExn XType)
+  | None => (s, RExn XType)
   | Some c =>
-    if negb (rack_accepts k c) then (w, RExn XType)
-    else if has_container w i then (w, RExn XValue)   (* list.append; raise; del list[-1] *)
-    else
-      let w := put_rack w f k (get_rack w f k ++ [Some i]) in
-      (add_item F w i (PRack f k), ROk)
+    if negb (rack_accepts k c) then (s, RExn XType)
+    else if has_container w i then (s, RExn XValue)   (* list.append; raise; del list[-1] *)
+    else (add_item F (set_rack s f k (get_rack w f k ++ [Some i])) i (PRack f k), ROk)
   end.
 
-Definition rack_insert (w : world) (f : nat) (k : rackk) (idx : Z) (v : option nat) : world * res :=
+Definition rack_insert (s : st) (f : nat) (k : rackk) (idx : Z) (v : option nat) : st * res :=
+  let w := fst s in
   let l := get_rack w f k in
   let ok := match v with
             | None => true
             | Some i => match cls_of w i with Some c => rack_accepts k c | None => false end
             end in
-  if negb ok then (w, RExn XType)
+  if negb ok then (s, RExn XType)
   else
-    let l1 := allocate l (idx - 1) in
-    let l2 := list_ins l1 (insert_pos (length l1) idx) v in
+    let l2 := ins_list l idx v in
     match v with
-    | None => (put_rack w f k (cleanup l2), ROk)
+    | None => (set_rack s f k (cleanup l2), ROk)
     | Some i =>
       if has_container w i then
         (* roll-back: del self.__list[index] with the caller's index, then _cleanup *)
         match norm_index (length l2) idx with
-        | Some n => (put_rack w f k (cleanup (list_del l2 n)), RExn XValue)
-        | None => (put_rack w f k l2, RExn XIndex)   (* IndexError raised inside the except block *)
+        | Some n => (set_rack s f k (cleanup (list_del l2 n)), RExn XValue)
+        | None => (set_rack s f k l2, RExn XIndex)   (* IndexError raised inside the except block *)
         end
-      else
-        let w := put_rack w f k l2 in
-        (add_item F w i (PRack f k), ROk)
+      else (add_item F (set_rack s f k l2) i (PRack f k), ROk)
     end.
 
-Definition rack_place (w : world) (f : nat) (k : rackk) (idx : Z) (i : nat) : world * res :=
+Definition rack_place (s : st) (f : nat) (k : rackk) (idx : Z) (i : nat) : st * res :=
+  let w := fst s in
   match cls_of w i with
-  | None => (w, RExn XType)
+  | None => (s, RExn XType)
   | Some c =>
-    if negb (rack_accepts k c) then (w, RExn XType)
+    if negb (rack_accepts k c) then (s, RExn XType)
     else
       let l := get_rack w f k in
       let proceed (l1 : rack) :=
           match norm_index (length l1) idx with
-          | None => (w, RExn XIndex)                (* list[index] = item: IndexError, nothing changed but padding *)
+          | None => (s, RExn XIndex)                (* list[index] = item: IndexError *)
           | Some n =>
             if has_container w i
-            then (put_rack w f k (cleanup (list_set l1 n None)), RExn XValue)
-            else let w := put_rack w f k (list_set l1 n (Some i)) in
-                 (add_item F w i (PRack f k), ROk)
+            then (set_rack s f k (cleanup (list_set l1 n None)), RExn XValue)
+            else (add_item F (set_rack s f k (list_set l1 n (Some i))) i (PRack f k), ROk)
           end in
       match norm_index (length l) idx with
       | Some n =>
         match nth_error l n with
-        | Some (Some _) => (w, RExn XSlotTaken)
+        | Some (Some _) => (s, RExn XSlotTaken)
         | _ => proceed l
         end
-      | None =>
-        let l1 := allocate l idx in
-        match norm_index (length l1) idx with
-        | None => (put_rack w f k l1, RExn XIndex)
-        | Some _ => proceed l1
-        end
+      | None => proceed (allocate l idx)
       end
   end.
 
-Definition rack_equip (w : world) (f : nat) (k : rackk) (i : nat) : world * res :=
+Definition rack_equip (s : st) (f : nat) (k : rackk) (i : nat) : st * res :=
+  let w := fst s in
   match cls_of w i with
-  | None => (w, RExn XType)
+  | None => (s, RExn XType)
   | Some c =>
-    if negb (rack_accepts k c) then (w, RExn XType)
+    if negb (rack_accepts k c) then (s, RExn XType)
     else
-      let l := get_rack w f k in
-      let (l1, n) := match find_index (fun x => match x with None => true | Some _ => false end) l with
-                     | Some n => (list_set l n (Some i), n)
-                     | None => (l ++ [Some i], length l)
-                     end in
+      let (l1, n) := equip_list (get_rack w f k) i in
       if has_container w i
-      then (put_rack w f k (cleanup (list_set l1 n None)), RExn XValue)
-      else let w := put_rack w f k l1 in (add_item F w i (PRack f k), ROk)
+      then (set_rack s f k (cleanup (list_set l1 n None)), RExn XValue)
+      else (add_item F (set_rack s f k l1) i (PRack f k), ROk)
   end.
 
 (* remove / free by value (item or None) or by integer index *)
 Inductive rarg := RItem (v : option nat) | RIndex (idx : Z).
 
-Definition rack_locate (l : rack) (a : rarg) : option (nat * option nat) + exn :=
+Definition rack_locate (l : rack) (a : rarg) : (nat * option nat) + exn :=
   match a with
   | RIndex idx => match norm_index (length l) idx with
-                  | Some n => match nth_error l n with Some v => inl (Some (n, v)) | None => inr XIndex end
+                  | Some n => match nth_error l n with Some v => inl (n, v) | None => inr XIndex end
                   | None => inr XIndex
                   end
-  | RItem v => match find_index (fun x => onat_is x v) l with
-               | Some n => inl (Some (n, v))
+  | RItem v => match find_index (fun x => onat_eqb x v) l with
+               | Some n => inl (n, v)
                | None => inr XValue
                end
   end.
 
-Definition rack_remove (w : world) (f : nat) (k : rackk) (a : rarg) : world * res :=
-  let l := get_rack w f k in
-  match rack_locate l a with
-  | inr x => (w, RExn x)
-  | inl None => (w, ROk)
-  | inl (Some (n, v)) =>
-    let w := match v with Some i => remove_item F w i | None => w end in
-    (put_rack w f k (cleanup (list_del (get_rack w f k) n)), ROk)
+Definition rack_remove (s : st) (f : nat) (k : rackk) (a : rarg) : st * res :=
+  match rack_locate (get_rack (fst s) f k) a with
+  | inr x => (s, RExn x)
+  | inl (n, v) =>
+    let s := match v with Some i => remove_item F s i | None => s end in
+    (set_rack s f k (cleanup (list_del (get_rack (fst s) f k) n)), ROk)
   end.
 
-Definition rack_free (w : world) (f : nat) (k : rackk) (a : rarg) : world * res :=
-  let l := get_rack w f k in
-  match rack_locate l a with
-  | inr x => (w, RExn x)
-  | inl None => (w, ROk)
-  | inl (Some (n, None)) => (w, ROk)
-  | inl (Some (n, Some i)) =>
-    let w := remove_item F w i in
-    (put_rack w f k (cleanup (list_set (get_rack w f k) n None)), ROk)
+Definition rack_free (s : st) (f : nat) (k : rackk) (a : rarg) : st * res :=
+  match rack_locate (get_rack (fst s) f k) a with
+  | inr x => (s, RExn x)
+  | inl (n, None) => (s, ROk)
+  | inl (n, Some i) =>
+    let s := remove_item F s i in
+    (set_rack s f k (cleanup (list_set (get_rack (fst s) f k) n None)), ROk)
   end.
 
-Definition rack_clear (w : world) (f : nat) (k : rackk) : world * res :=
-  let w := fold_left (fun w v => match v with Some i => remove_item F w i | None => w end) (get_rack w f k) w in
-  (put_rack w f k [], ROk).
+Definition rack_clear (s : st) (f : nat) (k : rackk) : st * res :=
+  let s := fold_left (fun s v => match v with Some i => remove_item F s i | None => s end)
+                     (get_rack (fst s) f k) s in
+  (set_rack s f k [], ROk).
 
 (* ItemSet / TypeUniqueItemSet *)
 Definition get_setc (w : world) (f : nat) (k : setk) : list nat :=
@@ -316,89 +332,90 @@ Definition get_skillmap (w : world) (f : nat) : list (Z * nat) :=
 Definition put_skillmap (w : world) (f : nat) (m : list (Z * nat)) : world :=
   upd_fit w f (fun ft => fit_set_skillmap ft m).
 
-Definition itemset_add (w : world) (f : nat) (k : setk) (i : nat) : world * res :=
+Definition itemset_add (s : st) (f : nat) (k : setk) (i : nat) : st * res :=
+  let w := fst s in
   match cls_of w i with
-  | None => (w, RExn XType)
+  | None => (s, RExn XType)
   | Some c =>
-    if negb (set_accepts k c) then (w, RExn XType)
+    if negb (set_accepts k c) then (s, RExn XType)
     else
-      let w := put_setc w f k (set_add neqb (get_setc w f k) i) in
+      let s1 := lift s (fun w => put_setc w f k (set_add neqb (get_setc w f k) i)) in
       if has_container w i
-      then (put_setc w f k (set_rm neqb (get_setc w f k) i), RExn XValue)   (* set.remove(item) *)
-      else (add_item F w i (PSet f k), ROk)
+      then (lift s1 (fun w => put_setc w f k (set_rm neqb (get_setc w f k) i)), RExn XValue)   (* set.remove(item) *)
+      else (add_item F s1 i (PSet f k), ROk)
   end.
 
-Definition set_add_op (w : world) (f : nat) (k : setk) (i : nat) : world * res :=
+Definition set_add_op (s : st) (f : nat) (k : setk) (i : nat) : st * res :=
   match k with
   | SeSkills =>
-    match get_item w i with
-    | None => (w, RExn XType)
+    match get_item (fst s) i with
+    | None => (s, RExn XType)
     | Some it =>
-      if negb (set_accepts k (i_cls it)) then (w, RExn XType)
-      else if al_mem zeqb (get_skillmap w f) (i_tid it) then (w, RExn XValue)
+      if negb (set_accepts k (i_cls it)) then (s, RExn XType)
+      else if al_mem zeqb (get_skillmap (fst s) f) (i_tid it) then (s, RExn XValue)
       else
-        let w := put_skillmap w f (al_set zeqb (get_skillmap w f) (i_tid it) i) in
-        let (w, r) := itemset_add w f k i in
+        let s := lift s (fun w => put_skillmap w f (al_set zeqb (get_skillmap w f) (i_tid it) i)) in
+        let (s, r) := itemset_add s f k i in
         match r with
-        | RExn _ => (put_skillmap w f (al_del zeqb (get_skillmap w f) (i_tid it)), r)
-        | _ => (w, r)
+        | RExn _ => (lift s (fun w => put_skillmap w f (al_del zeqb (get_skillmap w f) (i_tid it))), r)
+        | _ => (s, r)
         end
     end
-  | _ => itemset_add w f k i
+  | _ => itemset_add s f k i
   end.
 
-Definition set_remove_op (w : world) (f : nat) (k : setk) (i : nat) : world * res :=
-  if negb (mem neqb (get_setc w f k) i) then (w, RExn XKey)
+Definition set_remove_op (s : st) (f : nat) (k : setk) (i : nat) : st * res :=
+  if negb (mem neqb (get_setc (fst s) f k) i) then (s, RExn XKey)
   else
-    let w := remove_item F w i in
-    let w := put_setc w f k (set_rm neqb (get_setc w f k) i) in
-    match k, get_item w i with
-    | SeSkills, Some it => (put_skillmap w f (al_del zeqb (get_skillmap w f) (i_tid it)), ROk)
-    | _, _ => (w, ROk)
+    let s := remove_item F s i in
+    let s := lift s (fun w => put_setc w f k (set_rm neqb (get_setc w f k) i)) in
+    match k, get_item (fst s) i with
+    | SeSkills, Some it => (lift s (fun w => put_skillmap w f (al_del zeqb (get_skillmap w f) (i_tid it))), ROk)
+    | _, _ => (s, ROk)
     end.
 
-Definition set_clear_op (w : world) (f : nat) (k : setk) : world * res :=
-  let w := fold_left (fun w i => remove_item F w i) (get_setc w f k) w in
-  let w := put_setc w f k [] in
-  match k with SeSkills => (put_skillmap w f [], ROk) | _ => (w, ROk) end.
+Definition set_clear_op (s : st) (f : nat) (k : setk) : st * res :=
+  let s := fold_left (fun s i => remove_item F s i) (get_setc (fst s) f k) s in
+  let s := lift s (fun w => put_setc w f k []) in
+  match k with SeSkills => (lift s (fun w => put_skillmap w f []), ROk) | _ => (s, ROk) end.
 
-Definition skill_del_op (w : world) (f : nat) (tid : Z) : world * res :=
-  match al_get zeqb (get_skillmap w f) tid with
-  | None => (w, RExn XKey)
-  | Some i => set_remove_op w f SeSkills i
+Definition skill_del_op (s : st) (f : nat) (tid : Z) : st * res :=
+  match al_get zeqb (get_skillmap (fst s) f) tid with
+  | None => (s, RExn XKey)
+  | Some i => set_remove_op s f SeSkills i
   end.
 
 (* ItemDescriptor.__set__ *)
-Definition descriptor_set (w : world) (old : option nat) (new : option nat) (accepts : icls -> bool)
-           (p : place) (store : world -> option nat -> world) : world * res :=
+Definition descriptor_set (s : st) (old : option nat) (new : option nat) (accepts : icls -> bool)
+           (p : place) (store : world -> option nat -> world) : st * res :=
   let ok := match new with
             | None => true
-            | Some i => match cls_of w i with Some c => accepts c | None => false end
+            | Some i => match cls_of (fst s) i with Some c => accepts c | None => false end
             end in
-  if negb ok then (w, RExn XType)
+  if negb ok then (s, RExn XType)
   else
-    let w := match old with Some o => remove_item F w o | None => w end in
-    let w := store w new in
+    let s := match old with Some o => remove_item F s o | None => s end in
+    let s := lift s (fun w => store w new) in
     match new with
-    | None => (w, ROk)
+    | None => (s, ROk)
     | Some i =>
-      if has_container w i then
-        let w := store w old in
-        let w := match old with Some o => add_item F w o p | None => w end in
-        (w, RExn XValue)
-      else (add_item F w i p, ROk)
+      if has_container (fst s) i then
+        let s := lift s (fun w => store w old) in
+        let s := match old with Some o => add_item F s o p | None => s end in
+        (s, RExn XValue)
+      else (add_item F s i p, ROk)
     end.
 
-Definition slot_set_op (w : world) (f : nat) (k : slotk) (new : option nat) : world * res :=
-  let old := match get_fit w f with Some ft => fit_slot ft k | None => None end in
-  descriptor_set w old new (slot_accepts k) (PSlot f k)
+Definition slot_set_op (s : st) (f : nat) (k : slotk) (new : option nat) : st * res :=
+  let old := match get_fit (fst s) f with Some ft => fit_slot ft k | None => None end in
+  descriptor_set s old new (slot_accepts k) (PSlot f k)
                  (fun w v => upd_fit w f (fun ft => fit_set_slot ft k v)).
 
-Definition charge_set_op (w : world) (m : nat) (new : option nat) : world * res :=
-  match get_item w m with
-  | None => (w, RExn XType)
+Definition charge_set_op (s : st) (m : nat) (new : option nat) : st * res :=
+  match get_item (fst s) m with
+  | None => (s, RExn XType)
   | Some it =>
-    descriptor_set w (i_charge it) new (fun c => icls_eqb c CCharge) (PCharge m)
+    descriptor_set s (i_charge it) new (fun c => icls_eqb c CCharge) (PCharge m)
                    (fun w v => upd_item w m (fun it => it_set_charge it v))
   end.
 
@@ -411,85 +428,82 @@ Definition is_container_state (w : world) (i : nat) : bool :=
   | None => false
   end.
 
-Definition state_set_op (w : world) (i : nat) (new : Z) : world * res :=
-  match get_item w i with
-  | None => (fail w EKeyAbsent, ROk)
+Definition state_set_op (s : st) (i : nat) (new : Z) : st * res :=
+  match get_item (fst s) i with
+  | None => (lift s (fun w => fail w EKeyAbsent), ROk)
   | Some it =>
     let old := i_state it in
-    if old =? new then (w, ROk)
+    if old =? new then (s, ROk)
     else
-      let w := put_item w i (it_set_state it new) in
-      match item_fit w i with
-      | None => (w, ROk)
+      let s := lift s (fun w => put_item w i (it_set_state it new)) in
+      match item_fit (fst s) i with
+      | None => (s, ROk)
       | Some f =>
-        let (w, msgs) := state_update_msgs w i old new in
-        let (w, msgs) :=
-            fold_left (fun (acc : world * list msg) ch =>
-                         let (w, ms) := acc in
-                         if is_container_state w ch
-                         then let (w, m2) := state_update_msgs w ch old new in (w, ms ++ m2)
-                         else (w, ms)) (child_items it false) (w, msgs) in
-        (publish PF w f msgs, ROk)
+        (with_msgs s f (fun w =>
+           let (w, msgs) := state_update_msgs w i old new in
+           fold_left (fun (acc : world * list msg) ch =>
+                        let (w, ms) := acc in
+                        if is_container_state w ch
+                        then let (w, m2) := state_update_msgs w ch old new in (w, ms ++ m2)
+                        else (w, ms)) (child_items it false) (w, msgs)), ROk)
       end
   end.
 
-Definition target_set_op (w : world) (i : nat) (new : option nat) : world * res :=
-  match get_item w i with
-  | None => (fail w EKeyAbsent, ROk)
+Definition target_set_op (s : st) (i : nat) (new : option nat) : st * res :=
+  match get_item (fst s) i with
+  | None => (lift s (fun w => fail w EKeyAbsent), ROk)
   | Some it =>
     let old := i_target it in
-    if onat_eqb old new then (w, ROk)
+    if onat_eqb old new then (s, ROk)
     else
-      match item_fit w i with
-      | None => (put_item w i (it_set_target it new), ROk)
+      match item_fit (fst s) i with
+      | None => (lift s (fun w => put_item w i (it_set_target it new)), ROk)
       | Some f =>
         let projectable :=
             fold_right (fun e acc =>
-                          match acc, item_effect w it e with
+                          match acc, item_effect (fst s) it e with
                           | Some l, Some ef => if Z.eqb (e_cat ef) EffectCategoryId_target then Some (e :: l) else Some l
                           | _, _ => None
                           end) (Some []) (i_running it) in
         match projectable with
-        | None => (fail w EKeyAbsent, ROk)
+        | None => (lift s (fun w => fail w EKeyAbsent), ROk)
         | Some pe =>
-          let w := match old with
-                   | Some o => publish PF w f (map (fun e => MEffectUnapplied i e [Some o] false) pe)
-                   | None => w end in
-          let w := upd_item w i (fun it => it_set_target it new) in
-          let w := match new with
-                   | Some n => publish PF w f (map (fun e => MEffectApplied i e [Some n]) pe)
-                   | None => w end in
-          (w, ROk)
+          let s := match old with
+                   | Some o => emit_always s f (map (fun e => MEffectUnapplied i e [Some o] false) pe)
+                   | None => s end in
+          let s := lift s (fun w => upd_item w i (fun it => it_set_target it new)) in
+          let s := match new with
+                   | Some n => emit_always s f (map (fun e => MEffectApplied i e [Some n]) pe)
+                   | None => s end in
+          (s, ROk)
         end
       end
   end.
 
-Definition mode_set_op (w : world) (i : nat) (eid : Z) (mode : Z) : world * res :=
-  match get_item w i with
-  | None => (fail w EKeyAbsent, ROk)
+Definition mode_set_op (s : st) (i : nat) (eid : Z) (mode : Z) : st * res :=
+  match get_item (fst s) i with
+  | None => (lift s (fun w => fail w EKeyAbsent), ROk)
   | Some it =>
     let modes := if mode =? EffectMode_full_compliance
                  then al_del zeqb (i_modes it) eid
                  else al_set zeqb (i_modes it) eid mode in
-    let w := put_item w i (it_set_modes it modes) in
-    match item_fit w i with
-    | None => (w, ROk)
-    | Some f =>
-      let (w, msgs) := effects_update w i in
-      (publish PF w f msgs, ROk)
+    let s := lift s (fun w => put_item w i (it_set_modes it modes)) in
+    match item_fit (fst s) i with
+    | None => (s, ROk)
+    | Some f => (with_msgs s f (fun w => effects_update w i), ROk)
     end
   end.
 
-Definition level_set_op (w : world) (i : nat) (lvl : Z) : world * res :=
-  match get_item w i with
-  | None => (fail w EKeyAbsent, ROk)
+Definition level_set_op (s : st) (i : nat) (lvl : Z) : st * res :=
+  match get_item (fst s) i with
+  | None => (lift s (fun w => fail w EKeyAbsent), ROk)
   | Some it =>
-    if i_level it =? lvl then (w, ROk)
+    if i_level it =? lvl then (s, ROk)
     else
-      let w := put_item w i (it_set_level it lvl) in
-      match item_fit w i with
-      | None => (w, ROk)
-      | Some f => (publish PF w f [MAttrsChanged [(i, [AttrId_skill_level])]], ROk)
+      let s := lift s (fun w => put_item w i (it_set_level it lvl)) in
+      match item_fit (fst s) i with
+      | None => (s, ROk)
+      | Some f => (emit_always s f [MAttrsChanged [(i, [AttrId_skill_level])]], ROk)
       end
   end.
 
@@ -499,85 +513,89 @@ Definition level_set_op (w : world) (i : nat) (lvl : Z) : world * res :=
 Definition fleet_fits (w : world) (fl : nat) : list nat :=
   match al_get neqb (w_fleets w) fl with Some l => l | None => [] end.
 
-Definition fleet_add_op (w : world) (fl f : nat) : world * res :=
-  match fit_fleet w f with
-  | Some _ => (w, RExn XValue)
+Definition fleet_add_op (s : st) (fl f : nat) : st * res :=
+  match fit_fleet (fst s) f with
+  | Some _ => (s, RExn XValue)
   | None =>
-    let w := set_fleets w (al_set neqb (w_fleets w) fl (set_add neqb (fleet_fits w fl) f)) in
-    let w := upd_fit w f (fun ft => fit_set_fleet ft (Some fl)) in
-    (publish PF w f [MFleetFitAdded], ROk)
+    let s := lift s (fun w =>
+               let w := set_fleets w (al_set neqb (w_fleets w) fl (set_add neqb (fleet_fits w fl) f)) in
+               upd_fit w f (fun ft => fit_set_fleet ft (Some fl))) in
+    (emit_always s f [MFleetFitAdded], ROk)
   end.
 
-Definition fleet_remove_one (w : world) (fl f : nat) : world :=
-  let w := publish PF w f [MFleetFitRemoved] in
-  let w := set_fleets w (al_set neqb (w_fleets w) fl (set_rm neqb (fleet_fits w fl) f)) in
-  upd_fit w f (fun ft => fit_set_fleet ft None).
+Definition fleet_remove_one (s : st) (fl f : nat) : st :=
+  let s := emit_always s f [MFleetFitRemoved] in
+  lift s (fun w =>
+    let w := set_fleets w (al_set neqb (w_fleets w) fl (set_rm neqb (fleet_fits w fl) f)) in
+    upd_fit w f (fun ft => fit_set_fleet ft None)).
 
-Definition fleet_remove_op (w : world) (fl f : nat) : world * res :=
-  if negb (mem neqb (fleet_fits w fl) f) then (w, RExn XKey)
-  else (fleet_remove_one w fl f, ROk).
+Definition fleet_remove_op (s : st) (fl f : nat) : st * res :=
+  if negb (mem neqb (fleet_fits (fst s) fl) f) then (s, RExn XKey)
+  else (fleet_remove_one s fl f, ROk).
 
-Definition fleet_clear_op (w : world) (fl : nat) : world * res :=
-  (fold_left (fun w f => fleet_remove_one w fl f) (fleet_fits w fl) w, ROk).
+Definition fleet_clear_op (s : st) (fl : nat) : st * res :=
+  (fold_left (fun s f => fleet_remove_one s fl f) (fleet_fits (fst s) fl) s, ROk).
 
-Definition load_fit_items (w : world) (f : nat) : world :=
-  match get_fit w f with
-  | Some ft => fold_left (fun w i => load F w i) (fit_items w ft true) w
-  | None => fail w EKeyAbsent
+Definition load_fit_items (s : st) (f : nat) : st :=
+  match get_fit (fst s) f with
+  | Some ft => fold_left (fun s i => load F s i) (fit_items (fst s) ft true) s
+  | None => lift s (fun w => fail w EKeyAbsent)
   end.
 (* the generator re-reads containers lazily; unloading changes no container
    except autocharges, which are skipped *)
-Definition unload_fit_items (w : world) (f : nat) : world :=
-  match get_fit w f with
-  | Some ft => fold_left (fun w i => unload F w i) (fit_items w ft true) w
+Definition unload_fit_items (s : st) (f : nat) : st :=
+  match get_fit (fst s) f with
+  | Some ft => fold_left (fun s i => unload F s i) (fit_items (fst s) ft true) s
+  | None => lift s (fun w => fail w EKeyAbsent)
+  end.
+
+Definition ss_fit_list (w : world) (x : nat) : list nat :=
+  match get_ss w x with Some y => ss_fits y | None => [] end.
+Definition ss_set_fits (w : world) (x : nat) (l : list nat) : world :=
+  match get_ss w x with
+  | Some y => put_ss w x (mkSolsys (ss_source y) l)
   | None => fail w EKeyAbsent
   end.
 
-Definition ss_fit_list (w : world) (s : nat) : list nat :=
-  match get_ss w s with Some x => ss_fits x | None => [] end.
-Definition ss_set_fits (w : world) (s : nat) (l : list nat) : world :=
-  match get_ss w s with
-  | Some x => put_ss w s (mkSolsys (ss_source x) l (ss_calc x))
-  | None => fail w EKeyAbsent
-  end.
-
-Definition solsys_add_op (w : world) (s f : nat) : world * res :=
-  match fit_solsys w f with
-  | Some _ => (w, RExn XValue)
+Definition solsys_add_op (s : st) (x f : nat) : st * res :=
+  match fit_solsys (fst s) f with
+  | Some _ => (s, RExn XValue)
   | None =>
-    let w := ss_set_fits w s (set_add neqb (ss_fit_list w s) f) in
-    let w := upd_fit w f (fun ft => fit_set_solsys ft (Some s)) in
-    (load_fit_items w f, ROk)
+    let s := lift s (fun w =>
+               let w := ss_set_fits w x (set_add neqb (ss_fit_list w x) f) in
+               upd_fit w f (fun ft => fit_set_solsys ft (Some x))) in
+    (load_fit_items s f, ROk)
   end.
 
-Definition solsys_remove_one (w : world) (s f : nat) : world :=
-  let w := unload_fit_items w f in
-  let w := ss_set_fits w s (set_rm neqb (ss_fit_list w s) f) in
-  upd_fit w f (fun ft => fit_set_solsys ft None).
+Definition solsys_remove_one (s : st) (x f : nat) : st :=
+  let s := unload_fit_items s f in
+  lift s (fun w =>
+    let w := ss_set_fits w x (set_rm neqb (ss_fit_list w x) f) in
+    upd_fit w f (fun ft => fit_set_solsys ft None)).
 
-Definition solsys_remove_op (w : world) (s f : nat) : world * res :=
-  if negb (mem neqb (ss_fit_list w s) f) then (w, RExn XKey)
-  else (solsys_remove_one w s f, ROk).
+Definition solsys_remove_op (s : st) (x f : nat) : st * res :=
+  if negb (mem neqb (ss_fit_list (fst s) x) f) then (s, RExn XKey)
+  else (solsys_remove_one s x f, ROk).
 
-Definition solsys_clear_op (w : world) (s : nat) : world * res :=
-  (fold_left (fun w f => solsys_remove_one w s f) (ss_fit_list w s) w, ROk).
+Definition solsys_clear_op (s : st) (x : nat) : st * res :=
+  (fold_left (fun s f => solsys_remove_one s x f) (ss_fit_list (fst s) x) s, ROk).
 
-Definition source_set_op (w : world) (s : nat) (new : option nat) : world * res :=
-  match get_ss w s with
-  | None => (fail w EKeyAbsent, ROk)
-  | Some x =>
-    if onat_eqb (ss_source x) new then (w, ROk)
+Definition source_set_op (s : st) (x : nat) (new : option nat) : st * res :=
+  match get_ss (fst s) x with
+  | None => (lift s (fun w => fail w EKeyAbsent), ROk)
+  | Some y =>
+    if onat_eqb (ss_source y) new then (s, ROk)
     else
-      let w := match ss_source x with
-               | Some _ => fold_left unload_fit_items (ss_fits x) w
-               | None => w end in
-      let w := match get_ss w s with
-               | Some x => put_ss w s (mkSolsys new (ss_fits x) (ss_calc x))
-               | None => fail w EKeyAbsent end in
-      let w := match new with
-               | Some _ => fold_left load_fit_items (ss_fit_list w s) w
-               | None => w end in
-      (w, ROk)
+      let s := match ss_source y with
+               | Some _ => fold_left unload_fit_items (ss_fits y) s
+               | None => s end in
+      let s := lift s (fun w => match get_ss w x with
+                                | Some y => put_ss w x (mkSolsys new (ss_fits y))
+                                | None => fail w EKeyAbsent end) in
+      let s := match new with
+               | Some _ => fold_left load_fit_items (ss_fit_list (fst s) x) s
+               | None => s end in
+      (s, ROk)
   end.
 
 (* ------------------------------------------------------------------ *)
@@ -613,59 +631,87 @@ Inductive op :=
 | OKeys (i : nat)
 | OEffects (i : nat).
 
-Definition do_op (w : world) (o : op) : world * res :=
+Definition is_read (o : op) : bool :=
+  match o with ORead _ _ | OGet _ _ | OKeys _ | OEffects _ => true | _ => false end.
+
+(* the message-discipline layer: base world -> base world, result, publications *)
+Definition md_op (w : world) (o : op) : st * res :=
+  let s : st := (w, []) in
   match o with
-  | ODefSource src u => (set_srcs w (al_set neqb (w_srcs w) src u), ROk)
-  | ONewItem i c tid st lvl => (put_item w i (new_item c tid st lvl), ROk)
+  | ODefSource src u => (lift s (fun w => set_srcs w (al_set neqb (w_srcs w) src u)), ROk)
+  | ONewItem i c tid st lvl => (lift s (fun w => put_item w i (new_item c tid st lvl)), ROk)
   | ONewFit f chr =>
-    let w := put_fit w f empty_fit in
-    let w := put_item w chr (new_item CCharacter TypeId_character_static State_offline 0) in
-    slot_set_op w f SlCharacter (Some chr)
-  | ONewSolsys s => (put_ss w s (mkSolsys None [] empty_calc), ROk)
-  | OSlot f k v => slot_set_op w f k v
-  | OSetAdd f k i => set_add_op w f k i
-  | OSetRemove f k i => set_remove_op w f k i
-  | OSetClear f k => set_clear_op w f k
-  | OSkillDel f tid => skill_del_op w f tid
-  | ORackAppend f k i => rack_append w f k i
-  | ORackInsert f k idx v => rack_insert w f k idx v
-  | ORackPlace f k idx i => rack_place w f k idx i
-  | ORackEquip f k i => rack_equip w f k i
-  | ORackRemove f k a => rack_remove w f k a
-  | ORackFree f k a => rack_free w f k a
-  | ORackClear f k => rack_clear w f k
-  | OCharge m c => charge_set_op w m c
-  | OState i st => state_set_op w i st
-  | OTarget i t => target_set_op w i t
-  | OMode i e m => mode_set_op w i e m
-  | OLevel i l => level_set_op w i l
-  | OFleetAdd fl f => fleet_add_op w fl f
-  | OFleetRemove fl f => fleet_remove_op w fl f
-  | OFleetClear fl => fleet_clear_op w fl
-  | OSolsysAdd s f => solsys_add_op w s f
-  | OSolsysRemove s f => solsys_remove_op w s f
-  | OSolsysClear s => solsys_clear_op w s
-  | OSource s src => source_set_op w s src
+    let s := lift s (fun w =>
+               put_item (put_fit w f empty_fit) chr
+                        (new_item CCharacter TypeId_character_static State_offline 0)) in
+    slot_set_op s f SlCharacter (Some chr)
+  | ONewSolsys x => (lift s (fun w => put_ss w x (mkSolsys None [])), ROk)
+  | OSlot f k v => slot_set_op s f k v
+  | OSetAdd f k i => set_add_op s f k i
+  | OSetRemove f k i => set_remove_op s f k i
+  | OSetClear f k => set_clear_op s f k
+  | OSkillDel f tid => skill_del_op s f tid
+  | ORackAppend f k i => rack_append s f k i
+  | ORackInsert f k idx v => rack_insert s f k idx v
+  | ORackPlace f k idx i => rack_place s f k idx i
+  | ORackEquip f k i => rack_equip s f k i
+  | ORackRemove f k a => rack_remove s f k a
+  | ORackFree f k a => rack_free s f k a
+  | ORackClear f k => rack_clear s f k
+  | OCharge m c => charge_set_op s m c
+  | OState i x => state_set_op s i x
+  | OTarget i t => target_set_op s i t
+  | OMode i e m => mode_set_op s i e m
+  | OLevel i l => level_set_op s i l
+  | OFleetAdd fl f => fleet_add_op s fl f
+  | OFleetRemove fl f => fleet_remove_op s fl f
+  | OFleetClear fl => fleet_clear_op s fl
+  | OSolsysAdd x f => solsys_add_op s x f
+  | OSolsysRemove x f => solsys_remove_op s x f
+  | OSolsysClear x => solsys_clear_op s x
+  | OSource x src => source_set_op s x src
+  | ORead _ _ | OGet _ _ | OKeys _ | OEffects _ => (s, ROk)
+  end.
+
+(* the services replay the publications *)
+Definition apply_event (d : derived) (ev : event) : derived :=
+  match ev with
+  | EvPublish w f msgs => publish PF w d f msgs
+  | EvClear i => clear_cache d i
+  end.
+Definition apply_events (d : derived) (evs : list event) : derived := fold_left apply_event evs d.
+
+Record sys := mkSys { s_w : world; s_d : derived }.
+
+Definition read_op (w : world) (d : derived) (o : op) : derived * res :=
+  match o with
   | ORead i a =>
-    let (w, v) := read_attr PF w i a in
-    (w, match v with Some q => RVal q | None => RExn XKey end)
+    let (d, v) := read_attr PF w d i a in
+    (d, match v with Some q => RVal q | None => RExn XKey end)
   | OGet i a =>
-    let (w, v) := read_attr PF w i a in
-    (w, match v with Some q => RVal q | None => RNone end)
-  | OKeys i => (w, RKeys (attr_keys w i))
+    let (d, v) := read_attr PF w d i a in
+    (d, match v with Some q => RVal q | None => RNone end)
+  | OKeys i => (d, RKeys (attr_keys w d i))
   | OEffects i =>
     match get_item w i with
-    | Some it => (w, REffects (map (fun ee => (fst ee, mem zeqb (i_running it) (fst ee))) (item_effects w it)))
-    | None => (w, REffects [])
+    | Some it => (d, REffects (map (fun ee => (fst ee, mem zeqb (i_running it) (fst ee))) (item_effects w it)))
+    | None => (d, REffects [])
     end
+  | _ => (d, ROk)
   end.
 
-Definition step (w : world) (o : op) : world * res :=
-  let w := set_trace (clear_err w) [] in
-  let (w, r) := do_op w o in
-  match w_err w with
-  | Some e => (w, RExn (XInternal e))
-  | None => (w, r)
-  end.
+Definition step (x : sys) (o : op) : sys * res :=
+  let w := clear_err (s_w x) in
+  let d := d_clear (s_d x) in
+  let '(w', d', r) :=
+      if is_read o then let (d', r) := read_op w d o in (w, d', r)
+      else let '((w', evs), r) := md_op w o in (w', apply_events d evs, r) in
+  (mkSys w' d',
+   match w_err w', d_err d' with
+   | Some e, _ => RExn (XInternal e)
+   | None, Some e => RExn (XInternal e)
+   | None, None => r
+   end).
 
-Definition run (w : world) (ops : list op) : world := fold_left (fun w o => fst (step w o)) ops w.
+Definition run (x : sys) (ops : list op) : sys := fold_left (fun x o => fst (step x o)) ops x.
+Definition init_sys (pen : list Q) : sys := mkSys empty_world (empty_derived pen).
